@@ -373,10 +373,6 @@ Value Search::search(Position& position, Depth depth, Value alpha, Value beta,
         EXIT_SEARCH(Value(0));
     }
 
-    // cannot check it in ROOT_NODE as it might return
-    // without any move
-    if (!ROOT_NODE && (position.is_repeated() || position.is_draw())) EXIT_SEARCH(VALUE_DRAW);
-
     Move* begin = ROOT_NODE ? &(*_root_moves.begin()) : MOVE_LIST[info->_ply];
     Move* end = ROOT_NODE ? &(*_root_moves.end())
                           : generate_moves(position, position.color(), begin);
@@ -385,7 +381,13 @@ Value Search::search(Position& position, Depth depth, Value alpha, Value beta,
     bool is_in_check = position.is_in_check(position.color());
     if (is_in_check) depth++;
 
+    // checkmate ends the game even when the mating move completes the fifty-move
+    // count or repeats a position, so it is tested before the draw rules
     if (n_moves == 0) EXIT_SEARCH(is_in_check ? lost_in(0) : VALUE_DRAW);
+
+    // cannot check it in ROOT_NODE as it might return
+    // without any move
+    if (!ROOT_NODE && (position.is_repeated() || position.is_draw())) EXIT_SEARCH(VALUE_DRAW);
 
     if (depth == 0 || info->_ply >= MAX_DEPTH)
     {
